@@ -2023,3 +2023,39 @@ def run(ctx):
 #                                                               CAUGHT plumbing/consumer-does-not-download-the-path-it-uses, parents/producer-not-a-parent
 #  W5  own    handler adds the dependency only while fewer than 16 resources have been mentioned by the job
 #                                                               CAUGHT parents/producer-not-a-parent
+#
+# Strengthening after seed C18-agent10 (`first_reference = r not in self._inputs` in Job._interpolate_command's handler: the producer
+# wiring -- dependency edge, upload by the producer -- is done only the first time the job sees the resource; but `_add_inputs(r)` runs
+# BEFORE the validity check that raises "undefined resource", so a command that was refused once and is re-issued after the producer has
+# defined the file is never wired: the consumer downloads a location nobody uploads and has no parent).  Uncovered clause: "for EVERY
+# pipeline" -- every generated program consisted of accepted calls only (a BatchException was a build error), so state that a refused call
+# leaves behind in the DSL objects never met the registration done by an accepted call.  Added: phase `rejected` (Gen.inject_rejections:
+# earlier attempts at commands / PythonJob.calls of the program that the DSL refuses -- undefined file of another job, verbatim re-issue
+# after the definition; a Job / the Batch / an unconverted PythonResult / a resource of another batch somewhere among the references; a
+# Job among the call arguments; write_output before the definition -- 0..2 per call, at random earlier points of the session; groups and
+# depends_on declared before any command); the refused reference is read off the exception message and the (consumer, file) pairs /
+# producers that are visible only through a once-refused reference are counted (floors); a refused call must raise BatchException;
+# clause 3b (all phases): every scratch location a job downloads, other than what the driver wrote there, is uploaded by one of its
+# parents (keys plumbing/download-from-a-location-no-job-uploads, parents/uploader-of-a-download-not-a-parent).
+# Validation (scratch worktree of b7e62e7ae, quick, seed 0, one break at a time):
+#  S10 seed   C18-agent10                                        CAUGHT plumbing/producer-uploads-elsewhere, parents/producer-not-a-parent,
+#             plumbing/download-from-a-location-no-job-uploads, parents/uploader-of-a-download-not-a-parent
+#  R2  own    the same guard in PythonJob.call.handle_arg (python consumers only)          CAUGHT same four keys
+#  R5  own    BashJob.command clears _inputs and _dependencies when the interpolation raises (over-eager clean-up; _compile registers
+#             the references again, an explicit depends_on is gone)                        CAUGHT parents/explicit-dependency-lost, submit/run-raised
+#  R9  own    the handler queues (producer, file) pairs once per job (`_wired` cache filled in the handler) and wires them after re.sub
+#             returned: any refusal (Job / Batch reference too) loses the references before it
+#                                                               CAUGHT the four keys of S10 + plumbing/group-member-not-transferred
+#  R4  own    wiring skipped while the job has mentioned nothing and already depends_on the producer: NOT a defect (HELD) -- _compile
+#             interpolates every command again, which registers what command() skipped; only state that survives until _compile matters.
+#  (C18-agent2 / 4 / 6 / 8 still CAUGHT with their own keys; agent6 now also parents/uploader-of-a-download-not-a-parent.)
+#
+# CANDIDATE DEFECT on the unchanged tree (pattern switched OFF in the default workload: VERIF_C18_REJECTED_TYPO=1 turns it on; key
+# rejection/refused-reference-stays-registered-as-a-download; 87 witnesses in 300 sessions, seed 0):
+#      j2.command(f'cat {j1.ofiel}')   -> BatchException: undefined resource 'ofiel'   (a misspelt name; j1 never defines it)
+#      j2.command(f'cat {j1.ofile}')   -> accepted;  b.run()
+#   Job._interpolate_command's handler (and PythonJob.call.handle_arg alike) calls self._add_inputs(r) before it checks `r not in
+#   source._valid`, so the refused reference stays in j2._inputs: j2 is submitted with input_files containing
+#   (<remote_tmpdir>/<uid>/<j1 dir>/ofiel, /io/batch/<uid>/<j1 dir>/ofiel), a location no job uploads -- on the service j2 fails in its
+#   input step although every accepted call is correct.  Repair (not applied): move `self._add_inputs(r)` below the validity check in both
+#   places.  With the switch on and that repair the phase is silent; the repair also removes the precondition of C18-agent10.
